@@ -1,8 +1,10 @@
 import FastorModel.Proofs.Permute
 import FastorModel.Proofs.PermuteMeta
 import FastorModel.Proofs.PermuteOdometer
+import FastorModel.Proofs.PermuteLabels
 import FastorModel.Proofs.Transpose
 import FastorModel.Generated.C14Kernels
+import FastorModel.Proofs.TransposeLeaf
 /-
 # C14 — permute, permutation and transpose move every element to its permuted position
 
@@ -102,6 +104,28 @@ theorem transpose_correct_cfg (cfg : Cfg) (sz nR nC : Nat) (hR : 0 < nR) (hC : 0
     obtain ⟨h1, _, h3, h4⟩ := transpose_correct a m g1 g2 M N (cfg.native.lanes sz) nR nC (lanes_pos _ _) hR hC
     exact ⟨h1, h3, h4⟩
 
+/-- `TensorMap dst = trans(A)` as the code is now (materialise in a temporary, then copy linearly): the map ends up
+    holding the transposed matrix, every cell of it is written, nothing beyond it -/
+theorem map_assign_trans_correct (cfg : Cfg) (sz nR nC : Nat) (hR : 0 < nR) (hC : 0 < nC)
+    (a m t0 : Nat → α) (g1 g2 : Nat → Nat → Nat → α) (M N : Nat) :
+    (∀ i j, i < M → j < N → applyWrites (mapAssignWrites cfg sz nR nC a g1 g2 t0 M N) m (j * M + i) = a (i * N + j)) ∧
+    (∀ p, N * M ≤ p → applyWrites (mapAssignWrites cfg sz nR nC a g1 g2 t0 M N) m p = m p) := by
+  have hcopy : WritesExactly (mapAssignWrites cfg sz nR nC a g1 g2 t0 M N) (fun p => p < N * M)
+      (applyWrites (transposeWrites cfg sz nR nC a g1 g2 M N) t0) := by
+    apply writesExactly_of_all_right
+    · intro w hw
+      simp only [mapAssignWrites, List.mem_map, List.mem_range] at hw
+      obtain ⟨p, hp, rfl⟩ := hw
+      exact ⟨hp, rfl⟩
+    · intro p hp
+      exact ⟨(p, _), by simp only [mapAssignWrites, List.mem_map, List.mem_range]; exact ⟨p, hp, rfl⟩, rfl⟩
+  obtain ⟨h1, _, _⟩ := transpose_correct_cfg cfg sz nR nC hR hC a t0 g1 g2 M N
+  refine ⟨?_, ?_⟩
+  · intro i j hi hj
+    rw [(applyWrites_of_exact hcopy m (j * M + i)).1 (digits_lt hj hi), h1 i j hi hj]
+  · intro p hp
+    exact (applyWrites_of_exact hcopy m p).2 (by omega)
+
 /-- non-vacuity: the default AVX2 float build on a 9×11 matrix runs 1 full block column and both edge loops -/
 example : (blockedWrites (fun k => k) (fun _ _ _ => 0) (fun _ _ _ => 0) 9 11 8 1 1).length = 99 := by decide
 
@@ -116,6 +140,51 @@ example : (blockedWrites (fun k => k) (fun _ _ _ => 0) (fun _ _ _ => 0) 9 11 8 1
     Proof per kernel: `decide` on lane tokens + naturality (`Proofs/Intrinsics.lean`: every intrinsic commutes with
     mapping a function over the lanes; `Intr.of_tokens`). -/
 theorem intrinsic_leaf_kernels : C14K.AllKernels := C14K.all_kernels
+
+/-- **transpose_correct with any admissible leaf** — the blocked nest is correct whatever `_transpose_dispatch` runs, as
+    long as that leaf leaves the transposed block in `pack_out` (`LeafOK`): same conclusions as `transpose_correct` -/
+theorem transpose_correct_any_leaf (leaf : (Nat → α) → List (Nat × α)) (a m : Nat → α) (g1 g2 : Nat → Nat → Nat → α)
+    (M N V nR nC : Nat) (hV : 0 < V) (hR : 0 < nR) (hC : 0 < nC) (hleaf : LeafOK leaf (V * nC) (V * nR)) :
+    (∀ i j, i < M → j < N → applyWrites (blockedWritesWith leaf a g1 g2 M N V nR nC) m (j * M + i) = a (i * N + j)) ∧
+    (∀ p, p < N * M → ∃ w ∈ blockedWritesWith leaf a g1 g2 M N V nR nC, w.1 = p) ∧
+    (∀ p, N * M ≤ p → applyWrites (blockedWritesWith leaf a g1 g2 M N V nR nC) m p = m p) := by
+  have h := blockedWritesWith_exact leaf a g1 g2 M N V nR nC hV hR hC hleaf
+  refine ⟨?_, ?_, ?_⟩
+  · intro i j hi hj
+    rw [(applyWrites_of_exact h m (j * M + i)).1 (digits_lt hj hi), spec_at a M N i j hi]
+  · intro p hp
+    exact ⟨(p, _), lastWrite_some_mem ((h p).1 hp), rfl⟩
+  · intro p hp
+    exact (applyWrites_of_exact h m p).2 (by omega)
+
+/-- the float/double builds: `_transpose<T,M,N>` for ALL `M N` with the translated intrinsic kernel as leaf, in the
+    block shapes in which the library dispatches to it — float under AVX/AVX2 (`V = 8`, 8x8 kernel) and AVX-512
+    (`V = 16`, 16x16 kernel), double under AVX/AVX2 (`V = 4`: 4x4 kernel by default, the 8x8 kernel with both block
+    macros 2) and AVX-512 (`V = 8`, 8x8 kernel) -/
+theorem transpose_correct_intrinsic_leaf (z : α) (a m : Nat → α) (g1 g2 : Nat → Nat → Nat → α) (M N i j : Nat)
+    (hi : i < M) (hj : j < N) :
+    applyWrites (blockedWritesWith (C14K.k_float8_avx z) a g1 g2 M N 8 1 1) m (j * M + i) = a (i * N + j) ∧
+    applyWrites (blockedWritesWith (C14K.k_float8_avx2 z) a g1 g2 M N 8 1 1) m (j * M + i) = a (i * N + j) ∧
+    applyWrites (blockedWritesWith (C14K.k_float16_avx512 z) a g1 g2 M N 16 1 1) m (j * M + i) = a (i * N + j) ∧
+    applyWrites (blockedWritesWith (C14K.k_double4_avx z) a g1 g2 M N 4 1 1) m (j * M + i) = a (i * N + j) ∧
+    applyWrites (blockedWritesWith (C14K.k_double4_avx2 z) a g1 g2 M N 4 1 1) m (j * M + i) = a (i * N + j) ∧
+    applyWrites (blockedWritesWith (C14K.k_double8_avx z) a g1 g2 M N 4 2 2) m (j * M + i) = a (i * N + j) ∧
+    applyWrites (blockedWritesWith (C14K.k_double8_avx2 z) a g1 g2 M N 4 2 2) m (j * M + i) = a (i * N + j) ∧
+    applyWrites (blockedWritesWith (C14K.k_double8_avx512 z) a g1 g2 M N 8 1 1) m (j * M + i) = a (i * N + j) := by
+  have key : ∀ (K : (Nat → α) → List (Nat × α)) (n V b : Nat) (hV : 0 < V) (hb : 0 < b) (hn : V * b = n)
+      (hK : ∀ pa, Intr.finalCells (K pa) (n * n) = Intr.transposed pa n),
+      applyWrites (blockedWritesWith K a g1 g2 M N V b b) m (j * M + i) = a (i * N + j) := by
+    intro K n V b hV hb hn hK
+    have hl : LeafOK K (V * b) (V * b) := by rw [hn]; exact leafOK_of_kernel K n hK
+    exact (transpose_correct_any_leaf K a m g1 g2 M N V b b hV hb hb hl).1 i j hi hj
+  exact ⟨key _ 8 8 1 (by omega) (by omega) rfl (fun pa => (C14K.k_float8_avx_correct z pa).1),
+         key _ 8 8 1 (by omega) (by omega) rfl (fun pa => (C14K.k_float8_avx2_correct z pa).1),
+         key _ 16 16 1 (by omega) (by omega) rfl (fun pa => (C14K.k_float16_avx512_correct z pa).1),
+         key _ 4 4 1 (by omega) (by omega) rfl (fun pa => (C14K.k_double4_avx_correct z pa).1),
+         key _ 4 4 1 (by omega) (by omega) rfl (fun pa => (C14K.k_double4_avx2_correct z pa).1),
+         key _ 8 4 2 (by omega) (by omega) rfl (fun pa => (C14K.k_double8_avx_correct z pa).1),
+         key _ 8 4 2 (by omega) (by omega) rfl (fun pa => (C14K.k_double8_avx2_correct z pa).1),
+         key _ 8 8 1 (by omega) (by omega) rfl (fun pa => (C14K.k_double8_avx512_correct z pa).1)⟩
 
 /-! ## permute -/
 
@@ -166,6 +235,18 @@ theorem metafunctions_inverse (p : List Nat) (r : Nat) (hr : 0 < r) (hp : p.Perm
     IsInv p (mappedIndex p) r ∧ IsInv (legacyIdx p) p r ∧ mappedIndex p = legacyIdx p :=
   ⟨isInv_mappedIndex hr hp, isInv_legacyIdx hr hp,
    isInv_unique (isInv_mappedIndex hr hp) (isInv_legacyIdx hr hp).symm⟩
+
+/-- **explicit-output einsum** (`einsum<…, OIndex<o...>>`, C++17): it ends with
+    `permute<permute_mapped_index_t<Index<R...>, Index<O...>>>(res)` where `R` are the (distinct, arbitrary) labels of the
+    contraction result and `O` the requested order.  For every such pair the computed pack is "position in `R` of the
+    label `O[n]`" and is a permutation of `0..n-1`; by `permute_correct` the result therefore has, at place `n`, the axis of
+    `res` that carries the label `O[n]` (extent and elements). -/
+theorem einsum_output_index (R O : List Nat) (hn : R.Nodup) (hne : R ≠ []) (hO : O.Perm R) :
+    mappedIndex2 R O = O.map (fun y => R.idxOf y) ∧ (mappedIndex2 R O).Perm (List.range R.length) :=
+  ⟨mappedIndex2_spec hn hne hO, mappedIndex2_perm hn hne hO⟩
+
+/-- non-vacuity: the labels `5,8,2` requested as `2,5,8` -/
+example : [5, 8, 2].Nodup ∧ [2, 5, 8].Perm [5, 8, 2] ∧ mappedIndex2 [5, 8, 2] [2, 5, 8] = [2, 0, 1] := by decide
 
 /-- **cxx14_eq_cxx17** — the final contents of the result are the same for both standards and both loop skeletons
     (which, moreover, visit their box in the same order: `odometer_eq_cartesian`) -/
